@@ -6,6 +6,7 @@ constant emission, F4 -F filter neutrality.
 from __future__ import annotations
 
 import ast
+import re
 from typing import Any, Dict, List, Optional, Set, Tuple
 
 from .core import Finding, Inconclusive, Repo, RuleResult, enclosing, parent, qualname, rule, short, src_of
@@ -250,6 +251,122 @@ def v1(repo: Repo) -> RuleResult:
                 res.bad(f)
             else:
                 res.unsure(f"V1: {rs.qual}: routing {wrong} not recognised")
+    # ---- kinds: attributes the validators compare as integers receive integers only
+    # (a string or boolean constant reaching them ends in TypeError / a silent True == 1)
+    INT_ONLY = {("EnumField", "value"), ("MessageField", "number"), ("Array", "cap")}
+    try:
+        from .rules_b import action_value_kind, token_value_kind
+
+        fl_k = compiler_flow(repo, "Parser", "parser.py", inline=lambda n_, f_: n_.startswith("_") and n_ not in ("_lookup_referenced_member", "_get_col"), module_funcs=True)
+        n_kind = 0
+        from .fold import by_name as _bnk, lit_value as _lvk
+
+        memo_k: Dict[str, set] = {}
+
+        def sym_kinds(sym: str, depth: int = 0) -> set:
+            """value kinds of a grammar symbol, through pass-through and unwrapping actions (on paths)"""
+            if g.is_terminal(sym):
+                return set(token_value_kind(g, sym))
+            if sym in memo_k:
+                return memo_k[sym]
+            base = set(action_value_kind(g, sym))
+            if depth > 4 or not ({"value", "?"} & base):
+                memo_k[sym] = base
+                return base
+            memo_k[sym] = base  # recursion guard
+            act_ = g.action_of(sym)
+            out_: set = set()
+            if act_ is None:
+                return base
+            prm_ = [a_.arg for a_ in act_.node.args.args]
+            alts_ = [alt for l_, alt in g.alts_of_action(act_.name) if l_ == sym]
+            for q_ in fl_k.run(act_.node, {prm_[0]: _V("self"), prm_[1]: _V("p")}):
+                if q_.done != "return":
+                    continue
+                st_ = [e for e in q_.effects if e.kind == "store" and e.name == prm_[1] and e.args and e.args[0].const_value() == 0]
+                if not st_:
+                    out_.add("None")
+                    continue
+                tx = _sh(st_[-1].args[1])
+                mm_ = re.fullmatch(r"p\[(\d+)\](\.unwrap\(\))?", tx)
+                if mm_ is None:
+                    out_ |= base - {"value", "?"} or {"?"}
+                    continue
+                k_ = int(mm_.group(1))
+                for alt in alts_:
+                    if any(_lvk(kk, tt, _bnk({}, {"len": len(alt) + 1})) is False for kk, tt in q_.guards) or not (1 <= k_ <= len(alt)):
+                        continue
+                    inner = sym_kinds(alt[k_ - 1], depth + 1)
+                    if mm_.group(2):
+                        subj_ = f"p[{k_}]"
+                        if any(kk[0] == "isinstance" and _sh(kk[1]) == subj_ and tt and set(kk[2]) <= {"IntegerConstant"} for kk, tt in q_.guards) or inner <= {"IntegerConstant"}:
+                            out_.add("int")
+                        elif any(kk[0] == "isinstance" and _sh(kk[1]) == subj_ and tt and set(kk[2]) <= {"BooleanConstant"} for kk, tt in q_.guards):
+                            out_.add("bool")
+                        elif any(kk[0] == "isinstance" and _sh(kk[1]) == subj_ and tt and set(kk[2]) <= {"StringConstant"} for kk, tt in q_.guards):
+                            out_.add("str")
+                        else:
+                            out_ |= {"bool", "int", "str"}
+                    else:
+                        out_ |= inner
+            memo_k[sym] = out_ or base
+            return memo_k[sym]
+
+        for name, act in g.actions.items():
+            if not any(isinstance(c_, ast.Call) and isinstance(c_.func, ast.Name) and any((c_.func.id, k_.arg) in INT_ONLY for k_ in c_.keywords) for c_ in ast.walk(act.node)):
+                continue
+            prm = [a_.arg for a_ in act.node.args.args]
+            alts = [alt for _, alt in g.alts_of_action(name)]
+            for p_ in fl_k.run(act.node, {prm[0]: _V("self"), prm[1]: _V("p")}):
+                if p_.done != "return":
+                    continue
+                for e in p_.effects:
+                    if e.kind != "call" or not any((e.name, k_) in INT_ONLY for k_ in e.kw):
+                        continue
+                    for k_, v_ in e.kw.items():
+                        if (e.name, k_) not in INT_ONLY:
+                            continue
+                        n_kind += 1
+                        txt = _sh(v_)
+                        mm = re.fullmatch(r"p\[(\d+)\](\.unwrap\(\))?", txt)
+                        if mm is None:
+                            if v_.const_value() is not None:
+                                continue
+                            res.unsure(f"V1: {name}: {e.name}({k_}={txt}) is not a symbol value")
+                            continue
+                        k = int(mm.group(1))
+                        # alternatives alive on this path (len(p) literals)
+                        kinds = set()
+                        for alt in alts:
+                            if any(_lvk(kk, tt, _bnk({}, {"len": len(alt) + 1})) is False for kk, tt in p_.guards):
+                                continue
+                            if not (1 <= k <= len(alt)):
+                                continue
+                            sym = alt[k - 1]
+                            kinds |= sym_kinds(sym)
+                        subj = f"p[{k}]"
+                        int_const = any(kk[0] == "isinstance" and _sh(kk[1]) == subj and tt and set(kk[2]) <= {"IntegerConstant"} for kk, tt in p_.guards)
+                        any_const = any(kk[0] == "isinstance" and _sh(kk[1]) == subj and tt and "Constant" in kk[2] for kk, tt in p_.guards)
+                        not_const = any(kk[0] == "isinstance" and _sh(kk[1]) == subj and not tt and ("Constant" in kk[2]) for kk, tt in p_.guards)
+                        if mm.group(2):
+                            ok = int_const or kinds <= {"IntegerConstant"}
+                            why = "the unwrapped value of a constant that was not established to be an integer constant"
+                        else:
+                            plain = {x for x in kinds if x not in ("Constant", "IntegerConstant", "BooleanConstant", "StringConstant")} if not_const else kinds
+                            ok = plain <= {"int"}
+                            why = f"a value of kind {sorted(plain)}"
+                            if not ok and (plain - {"int"}) <= {"?", "value"}:
+                                res.unsure(f"V1: {name}: the kind of {e.name}({k_}={txt}) is not known ({sorted(plain)})")
+                                continue
+                        res.inst(part="kinds", action=name, attribute=f"{e.name}.{k_}", value=txt, symbol_kinds=sorted(kinds), ok=ok)
+                        if not ok:
+                            f = Finding("V1", PARSER, act.node.lineno, f"Parser.{name}", f"{e.name}({k_}={txt})", f"{e.name}.{k_} receives {why} (path under {p_.guard_text() or 'no condition'}): the validators compare it as an integer (`< 0`, `.bit_length()`), a string constant ends in TypeError instead of a diagnostic", witness='const LABEL = "two"; enum E : uint3 { RED = LABEL }', tag=f"{name}:{e.name}.{k_}:kind")
+                            f.part = "kinds"
+                            res.bad(f)
+        if n_kind == 0:
+            res.unsure("V1: no integer-only constructor attribute found in the actions")
+    except Inconclusive as e:
+        res.unsure(f"V1: kinds: {e}")
     return res
 
 
